@@ -89,6 +89,86 @@ def cells_unit(res):
     return res
 
 
+def dict_unit(res):
+    """Pb: Frontend.full_analysis_dict (real code), 2-line kernels with symbolic numbers on a 3-port model: every per-line
+    field of the machine-readable output is the corresponding attribute of the line (pressure per port NAME in port order,
+    latency, CP / LCD contribution, throughput, latency without load, micro-ops of the selected alternative), the summary
+    carries the per-port totals (get_throughput_sum; the first line's pressure if that is empty), the sum of the CP
+    contributions of the critical-path lines and the maximum LCD latency; warnings list = the flags given (+ unknown-instruction
+    warning iff some line carries tp_unknown); target = upper-cased arch and the model's ports."""
+    FE_FILES = ["osaca/parser/instruction_form.py", "osaca/semantics/isa_semantics.py", "osaca/semantics/arch_semantics.py", FE]
+    ex = Engine([REPO + "/" + f for f in FE_FILES])
+    ex.no_init |= {"Frontend"}
+    ports = ["0", "1", "2D"]
+    n = 2
+    V = {nm: [z3.Real(f"{nm}{i}") for i in range(n)] for nm in ("lat", "tp", "lwl", "cp", "lcdprev")}
+    PP = [[z3.Real(f"pp{i}_{j}") for j in range(len(ports))] for i in range(n)]
+    TS = [z3.Real(f"total_{j}") for j in range(len(ports))]
+    aw, lw, cw = z3.Bools("arch_warning length_warning lcd_warning")
+    L1 = z3.Real("lcd_latency")
+    for totals_empty in (False, True):
+        for unknown in (False, True):
+            for cpset in ((), (0,), (0, 1)):
+                def run():
+                    kernel = []
+                    for i in range(n):
+                        f = ex.instantiate("InstructionForm", kw=dict(mnemonic="op", line_number=i + 3, line=f"op{i}  x", latency=SNum(V["lat"][i], False), throughput=SNum(V["tp"][i], False),
+                                                                      port_pressure=[SNum(x, False) for x in PP[i]]))
+                        f.fields.update(_flags=["tp_unknown"] if (unknown and i == 1) else [], _latency_wo_load=SNum(V["lwl"][i], False), latency_cp=SNum(V["cp"][i], False),
+                                        latency_lcd=SNum(V["lcdprev"][i], False), _port_uops=[[1, "01"]] if i == 0 else {0: [[1, "0"]], 1: [[1, "1"]]})
+                        kernel.append(f)
+                    dep = {"4": {"root": kernel[1], "dependencies": [(kernel[1], SNum(L1, False))], "latency": SNum(L1, False)}}
+                    ex.abstract["get_loopcarried_dependencies"] = lambda ex_, so, a, kw: dep
+                    ex.abstract["get_critical_path"] = lambda ex_, so, a, kw: [kernel[i] for i in cpset]
+                    ex.abstract["get_throughput_sum"] = lambda ex_, so, a, kw: [] if totals_empty else [SNum(x, False) for x in TS]
+                    ex.abstract["get_ports"] = lambda ex_, so, a, kw: ports
+                    ex.abstract["_header_report_dict"] = lambda ex_, so, a, kw: {"hdr": 1}
+                    ex.abstract["re.sub"] = lambda ex_, so, a, kw: ("normalised", a[2])
+                    fe = SObj("Frontend", _machine_model=SObj("MachineModel"), _arch="zen2")
+                    ex.extra["kernel"] = kernel
+                    return ex.call_method("Frontend", "full_analysis_dict", fe, [kernel, SObj("KernelDG")], kw=dict(arch_warning=SBool(aw), length_warning=SBool(lw), lcd_warning=SBool(cw)))
+
+                paths = ex.explore(run, [L1 >= 0])
+
+                def post(v, p, totals_empty=totals_empty, unknown=unknown, cpset=cpset):
+                    if not isinstance(v, dict):
+                        return False
+                    k = p.extra["kernel"]
+                    g = []
+                    rows = v["Kernel"]
+                    if len(rows) != n:
+                        return False
+                    for i, r in enumerate(rows):
+                        g += [real_term(r["Latency"]) == V["lat"][i], real_term(r["Throughput"]) == V["tp"][i], real_term(r["LatencyWithoutLoad"]) == V["lwl"][i],
+                              real_term(r["LatencyCP"]) == V["cp"][i], real_term(r["LatencyLCD"]) == (L1 if i == 1 else 0)]
+                        g.append(z3.BoolVal(list(r["PortPressure"].keys()) == ports and r["LineNumber"] == i + 3 and r["Instruction"] == "op" and r["Flags"] == k[i].fields["_flags"]
+                                            and r["Flags"] is not k[i].fields["_flags"]))
+                        g += [real_term(r["PortPressure"][ports[j]]) == PP[i][j] for j in range(len(ports))]
+                        want_u = [[1, "01"]] if i == 0 else [[1, "0"]]
+                        g.append(z3.BoolVal([(u["Cycles"], u["Ports"]) for u in r["PortUops"]] == [(c, list(ps)) for c, ps in want_u]))
+                    sm = v["Summary"]
+                    tot = PP[0] if totals_empty else TS
+                    g.append(z3.BoolVal(list(sm["PortPressure"].keys()) == ports))
+                    g += [real_term(sm["PortPressure"][ports[j]]) == tot[j] for j in range(len(ports))]
+                    g.append(real_term(sm["CriticalPath"]) == sum([V["cp"][i] for i in cpset], z3.RealVal(0)))
+                    g.append(real_term(sm["LCD"]) == L1)
+                    w = v["Warnings"]
+                    g.append(z3.BoolVal(("UnknownInstrWarning" in w) == unknown and set(w) <= {"ArchWarning", "LengthWarning", "LCDWarning", "UnknownInstrWarning"}))
+                    return z3.And(g)
+
+                def warn_post(p, v):
+                    return v["Warnings"]
+
+                n_ = res.add_paths(paths, post, kind=f"totals_empty={int(totals_empty)}/unknown={int(unknown)}/cp={len(cpset)}", label="Pb")
+                for p in paths:
+                    if p.outcome[0] == "ret" and isinstance(p.outcome[1], dict):
+                        w = p.outcome[1]["Warnings"]
+                        res.add("warnings-iff-flags", p.pc, z3.And(z3.BoolVal("ArchWarning" in w) == aw, z3.BoolVal("LengthWarning" in w) == lw, z3.BoolVal("LCDWarning" in w) == cw), label="Pb")
+                        t = p.outcome[1]["Target"]
+                        res.add("target", p.pc, t["Name"] == "ZEN2" and t["Ports"] == ports and t["Ports"] is not ports, label="Pb")
+    return res
+
+
 def _inspect_unit():
     from .c11 import inspect_selection_unit
     return inspect_selection_unit
@@ -99,6 +179,7 @@ def units(tier):
         Unit("C13/frontend/warning-texts-and-marks", warnings_unit, "P", [(FE, "Frontend._user_warnings_header"), (FE, "Frontend._user_warnings_footer"),
                                                                         (FE, "Frontend._get_flag_symbols")], decisive=False),
         Unit("C13/frontend/_get_lcd_cp_ports", cells_unit, "P", [(FE, "Frontend._get_lcd_cp_ports"), (FE, "Frontend._get_node_by_lineno")], decisive=False),
+        Unit("C13/full_analysis_dict(fields = line attributes, summary = totals)", dict_unit, "Pb", [(FE, "Frontend.full_analysis_dict"), (FE, "Frontend._selected_port_uops")], decisive=False),
         Unit("C13/inspect/warning-flags-and-report-wiring", _inspect_unit(), "P", [(OS, "inspect")], decisive=False),
         bounded_unit("C13/report-vs-dict", "c13_report", [(FE, "Frontend.combined_view"), (FE, "Frontend.full_analysis_dict"), (FE, "Frontend.loopcarried_dependencies"),
                      (FE, "Frontend._get_port_pressure"), (FE, "Frontend._get_lcd_cp_ports"), (OS, "inspect")], extra_args=["C13"], timeout=2400, decisive=True),
